@@ -23,6 +23,10 @@ RULE = (
     "of the residue order and an added linear chain: no terminal state in the cyclic chain.  "
     "Non-trivial = terminal residue of a charged/variant type, > 1 chain, hidden chain end, strand "
     "or cyclic chain."
+    ' table: EXHAUSTIVE 32 input names x N/mid/C position x 6 force fields (PARSE also with '
+    '--neutraln/--neutralc).  blank-table: EXHAUSTIVE layouts of two chains without chain ids (5 id '
+    'layouts x last chain closed by TER or END only x first chain with/without OXT x 3 force '
+    'fields).  cyclic: also with one ring member that has no definition.'
 )
 ASSUMPTIONS = [
     "formal charges: ARG/LYS/HIP +1, ASP/GLU/CYM/TYM -1, charged termini +1/-1 (vf/topo.py)",
